@@ -24,4 +24,14 @@ Match == LET o == Cases[c] IN
          /\ \A i \in 1..NT : tlens[i] > 0 => o.cls[i] = Class(i)
          /\ o.outside = Outside
 Conforms == pc = "done" => (Match \/ PrintT(<<"MISMATCH", c>>))
+\* What C08 promises, evaluated on the OBSERVED outcome alone: a real copy that differs from the model (say, one that tries a
+\* second source entry with the same checksum) is specification drift, a violation only if one of these sentences fails
+ObservedOk == LET o == Cases[c] IN
+    /\ \A i \in 1..NT : (o.vec[i] = 1 /\ tlens[i] > 0) => o.cls[i] = "good"              \* valid only if the bytes now there hash to the checksum
+    /\ \A i \in 1..NT : (o.vec[i] = 0 - 1 /\ tlens[i] > 0) => o.cls[i] = "zero"          \* failed: zero-filled
+    /\ \A i \in 1..NT : vinit[i] = 1 => o.vec[i] = 1                                      \* what was valid stays
+    /\ \A i \in 1..NT : (vinit[i] = 0 /\ o.vec[i] = 1) => Lookup(i) # 0                   \* used only when the source declares that checksum
+    /\ \A i \in 1..NT : (vinit[i] = 0 /\ SourceHas(i)) => o.vec[i] = 1                    \* a chunk the source really holds is reused
+    /\ o.outside                                                                          \* nothing outside the extents being filled changed
+Promised == pc = "done" => (ObservedOk \/ PrintT(<<"PROPVIOL", c>>))
 =============================================================================
